@@ -107,6 +107,16 @@ CLAIMED.update({
             "Cells up to 4 characters; the blank is always allowed; a blanks-only fixed-width cell longer than its field is not "
             "judged; the hooks themselves are C02.",
             "DESIGN.md section 5, C03"),
+    "C11": ("TLA+ spec DataFormat.tla (applicability by format, value grammar and denotation per property, defaults, consistency): "
+            "TLC exhaustive over 4 formats x every setting of the pool (7 spellings x 15 code points + malformed values + every "
+            "other property's value classes) and all pairs of contradiction-relevant settings; every behaviour replayed through "
+            "DataFormat.set_property/validate and Cid.read",
+            "TLC checks DefaultsKept and NeverContradictory and emits, per behaviour, whether each setting applies, what it "
+            "denotes and whether the completed format is consistent; replay in 3 spelling variants of names and values compares "
+            "acceptance, the row named by a refusal, and every attribute of the resulting data format.",
+            "The concrete texts are the harness's; ambiguous spellings (single digit, literal white space, thousands separator "
+            "'space') are not tried; encodings are probed with a handful of names.",
+            "DESIGN.md section 5, C11"),
 })
 
 NOT_BUILT = "check not built yet in this round (planned: see DESIGN.md section 5)"
